@@ -95,9 +95,14 @@ OPS = {
     "text-before-header": [M("pair", raw(lambda t: "target : LAMMPS\n" + t))],
     "unclosed-header": [M("pair", raw(lambda t: t.replace("[Pair]", "[Pair"))), M("eam", raw(lambda t: t.replace("[EAM-Embed]", "[EAM-Embed")))],
     "no-delimiter": [M("pair", raw(lambda t: t.replace("Al-Al : as.buck", "Al-Al as.buck"))), M("eam", raw(lambda t: t.replace("Al : as.sqrt", "Al as.sqrt")))],
-    "placeholder-missing": [M("pair", lambda s: setv(s, "Pair", "Al-Al", "as.buck ${nope} 0.3 32.0")), M("eam", lambda s: setv(s, "Tabulation", "nr", "${nsteps}"))],
-    "placeholder-missing-section": [M("pair", lambda s: setv(s, "Pair", "Al-Al", "as.buck ${No:pe} 0.3 32.0"))],
-    "placeholder-syntax": [M("pair", lambda s: setv(s, "Pair", "Al-Al", "as.buck $x 0.3 32.0")), M("pair", lambda s: setv(s, "Pair", "Al-Al", "as.buck ${ 3 0.3"))],
+    "placeholder-missing": [M("pair", lambda s: setv(s, "Pair", "Al-Al", "as.buck ${nope} 0.3 32.0")), M("eam", lambda s: setv(s, "Tabulation", "nr", "${nsteps}")),
+                            M("eam", lambda s: setv(s, "Species", "Al.lattice_constant", "${missing}")), M("eam", lambda s: setv(s, "Species", "Cu.atomic_mass", "${Variables:missing}")),
+                            M("fs", lambda s: setv(s, "EAM-Density", "Al->Cu", "as.bornmayer ${a} 0.5")), M("eam", lambda s: setv(s, "EAM-Embed", "Al", "as.sqrt ${g}")),
+                            M("pair", lambda s: setv(s, "Table-Form:tf", "y", "0.0 1.0 ${y3} 9.0 16.0")), M("pair", lambda s: setv(s, "Potential-Form", "f(r,a)", "a*r + ${c}")),
+                            M("adp", lambda s: setv(s, "EAM-ADP-Dipole", "Al-Al", "as.polynomial ${p} 1"))],
+    "placeholder-missing-section": [M("pair", lambda s: setv(s, "Pair", "Al-Al", "as.buck ${No:pe} 0.3 32.0")), M("eam", lambda s: setv(s, "Species", "Al.lattice_constant", "${NoSection:x}"))],
+    "placeholder-syntax": [M("pair", lambda s: setv(s, "Pair", "Al-Al", "as.buck $x 0.3 32.0")), M("pair", lambda s: setv(s, "Pair", "Al-Al", "as.buck ${ 3 0.3")),
+                           M("eam", lambda s: setv(s, "Species", "Cu.atomic_mass", "$x")), M("eam", lambda s: setv(s, "Tabulation", "cutoff", "$c"))],
     "pair-key-no-dash": [M("pair", lambda s: rename(s, "Pair", "Al-Al", "AlAl")), M("eam", lambda s: rename(s, "Pair", "Cu-Cu", "Cu"))],
     "pair-key-two-dashes": [M("pair", lambda s: rename(s, "Pair", "Al-Cu", "Al-Cu-Fe"))],
     "adp-key-no-dash": [M("adp", lambda s: rename(s, "EAM-ADP-Dipole", "Al-Cu", "AlCu")), M("adp", lambda s: rename(s, "EAM-ADP-Quadrupole", "Cu-Cu", "Cu-Cu-Cu"))],
@@ -114,8 +119,11 @@ OPS = {
     "rho-all-three": [M("eam", lambda s: setv(s, "Tabulation", "drho", "1.0"))],
     "rho-step-alone": [M("eam", lambda s: (delk(s, "Tabulation", "nrho"), delk(s, "Tabulation", "cutoff_rho"), setv(s, "Tabulation", "drho", "1.0")))],
     "rho-nonnumeric": [M("eam", lambda s: setv(s, "Tabulation", "nrho", "abc")), M("fs", lambda s: setv(s, "Tabulation", "cutoff_rho", "x"))],
-    "grid-one-row": [M("pair", lambda s: setv(s, "Tabulation", "nr", "1")), M("eam", lambda s: setv(s, "Tabulation", "nr", "1"))],
-    "rho-one-row": [M("eam", lambda s: setv(s, "Tabulation", "nrho", "1")), M("fs", lambda s: setv(s, "Tabulation", "nrho", "1"))],
+    "grid-one-row": [M("pair", lambda s: setv(s, "Tabulation", "nr", "1")), M("eam", lambda s: setv(s, "Tabulation", "nr", "1")),
+                     M("pair", lambda s: (delk(s, "Tabulation", "nr"), setv(s, "Tabulation", "dr", "4.0"))),       # cutoff 3.5 with a larger step: one row
+                     M("fs", lambda s: (delk(s, "Tabulation", "nr"), setv(s, "Tabulation", "dr", "3.75")))],
+    "rho-one-row": [M("eam", lambda s: setv(s, "Tabulation", "nrho", "1")), M("fs", lambda s: setv(s, "Tabulation", "nrho", "1")),
+                    M("eam", lambda s: (delk(s, "Tabulation", "nrho"), setv(s, "Tabulation", "drho", "4.5")))],
     "dlpoly-four-rows": [M("dlpoly", lambda s: setv(s, "Tabulation", "nr", "4"))],
     "dlpoly-not-multiple-of-four": [M("dlpoly", lambda s: setv(s, "Tabulation", "nr", "10")), M("dlpoly", lambda s: setv(s, "Tabulation", "nr", "7"))],
     "cutoff-nan": [M("pair", lambda s: setv(s, "Tabulation", "cutoff", "nan")), M("eam", lambda s: setv(s, "Tabulation", "cutoff_rho", "nan"))],
